@@ -19,11 +19,21 @@ Copulas (all built through rpylib.model.utils: create_clayton_copula / create_in
         deepcopy-set      a deep copy of a used object is re-parametrised;   copy-sibling-set: a shallow copy of the used
                           object is re-parametrised and used, the original is observed (shared mutable state)
         pickle            re-parametrised, then sent through a dill round trip (what the engines' pool does)
+        clones, THE CLONE IS OBSERVED (clone = copy.copy / copy.deepcopy / dill round trip of a used object; the product
+        {which of the two objects is re-parametrised after cloning} x {which is observed} is covered together with
+        deepcopy-set / copy-sibling-set above):
+          copy              shallow copy, nothing re-parametrised
+          copy-set / pickle-set            the clone is re-parametrised (a bumped copy), the original is used again, clone observed
+          copy-kept / deepcopy-kept / pickle-kept   the clone is kept aside, the ORIGINAL is re-parametrised and used, clone observed
+          copy-original-set a shallow copy is taken and used, the original is re-parametrised and observed
+          copy-of-copy-set  shallow copy of a re-parametrised shallow copy, re-parametrised again
         int-parameters    integer-valued theta / eta handed over as Python ints
-        independent / dependent copulas: used, other-between, deepcopy, pickle
+        numpy-parameters  theta / eta handed over as numpy.float64;   positional-parameters: create_clayton_copula(theta, eta)
+        independent / dependent copulas: used, other-between, deepcopy, pickle, copy
       quick: one twin per Clayton route (targets (0.3,0.3), (0.7,0.5), (1,0), (3,1), (0.7,0.3) in turn, starting values off
-      the lattice), two int-parameter twins, two twins per parameter-free copula; thorough: one per route with targets
-      (0.1,0.9), (0.3,0.3), (0.7,0.5), (1,0), (3,1), (10,0.3), (0.7,0.3) in turn, three int-parameter twins, all plain routes,
+      the lattice), two int-parameter twins, one numpy- and one positional-parameter twin, three twins per parameter-free
+      copula; thorough: one per route with targets (0.1,0.9), (0.3,0.3), (0.7,0.5), (1,0), (3,1), (10,0.3), (0.7,0.3) in turn,
+      three int-parameter twins, all plain routes,
       full A8 / X3 3-d lattices and all six 2-d margins for every twin (the wide 3-d lattices A10 / X3W: fresh objects only).
 
 Sub-checks (alphabet / oracle)
@@ -35,6 +45,29 @@ Sub-checks (alphabet / oracle)
             {-5,-0.2,0,0.2,1}^d (equal, both nan, or 1e-13 relative: the two objects execute the same code on the same
             parameters).  The fresh object is what all other sub-checks judge.  A history that cannot be carried out because
             a public attribute rejects assignment (AttributeError) is counted `history_not_constructible`, never an alarm.
+            The parameter-form routes (int / numpy / positional) are run for every value of the menu they apply to.
+ args       (differential, every copula and every twin) ARGUMENT FORM of every public entry point - F(us) in d = 2 on
+            {-inf,-5,-0.2,-1e-200,-0.0,0,1e-200,0.2,1,inf}^2 and d = 3 on {-inf,-1,-0.0,0.2,5,inf}^3, margin(F, I, d)(u),
+            volume(F, a, b), and for Clayton conditional_distribution on {+-0.2, +-1, +-5} x (X + {-0.0}),
+            inverse_conditional_distribution on {+-0.2, +-1, +-5} x U, x_first_derivative on {-5,-0.2,-0.0,0,0.2,1}^d:
+            (a) the caller's argument objects (arrays, lists, tuples; the whole parent array of a view) are the same BIT FOR
+                BIT after every call (dtype, shape, bytes: a sign of zero counts);
+            (b) the usual form (a fresh float64 array; Python float eps) and every other form THE UNCHANGED TREE ACCEPTS give
+                the same answer: a second call on the same array, one work array re-filled point after point (what the margin
+                operator does), a strided view (column of a 2-d array), integer-dtype arrays / integer lists for
+                integer-valued points, eps as Python int / numpy.float64 / numpy.int64 / 0-d array / one-element array /
+                integer array, keyword arguments, index sets of margin() as list / tuple / array, its argument as list /
+                tuple / array / integer list, the corners of volume() as lists / tuples / arrays / integer lists; the
+                vectorised inverse against element-wise calls, against the reversed arrays, a scalar first argument against
+                the full array, no element (shape (0,)).  Same object, same parameters, same floating-point operations:
+                exact equality, 1e-13 relative where an integer is converted on the way, 1e-9 relative between vectorised
+                and element-wise evaluations of the inverse (numpy may use another pow kernel; the inverse amplifies one ulp
+                of c^(-theta/(1+theta)) - 1 by up to 1e6 at u = 1 - 1e-6).  An accepted form that raises is a violation;
+            (c) no aliasing: a returned array keeps its values when the caller overwrites its argument arrays afterwards
+                and when the function is called again (next call, same shapes);
+            (d) the tie x = -0.0 of the conditional distribution equals x = 0.0.
+            Integer-dtype arrays next to an integer-typed theta (route int-parameters) are rejected by numpy on the unchanged
+            tree ("Integers to negative integer powers"): counted `form_outside_alphabet`, never run.
  grounded   every u in (A14 + {-inf, -0.0} + extreme letters)^d with at least one zero entry: F(u) == 0 exactly.
             Extreme letters: +-{1e-300, 1e-200, 1e-120, 1e-60, 1e-10, 1e10, 1e60, 1e120, 1e200, 1e300} (Clayton: those with
             theta |log10 |u|| <= 300, see exclusions).
@@ -65,7 +98,8 @@ Sub-checks (alphabet / oracle)
  conditional (Clayton, 2-d) for eps in E = +-{0.2, 1, 5, 1e-100, 1e100} (thorough: + +-{1e-3, 0.04, 25}), x along
             X = {-inf, -1e300, -1e100, -1e3, -25, -5, -1, -0.2, -0.04, -1e-3, -1e-100, -1e-300, 0, 1e-300, ..., 1e300, +inf}:
             values in [0, 1], non-decreasing along X, 0 at -inf, 1 at +inf.  Inverse: F_eps(inv(eps, u)) = u for u in
-            {k/16} + {1e-6, 1e-3, 1-1e-3, 1-1e-6}; inv(eps, F_eps(x)) = x for every finite x of X on whose half line F_eps is
+            U = {k/16} + {1e-6, 1e-3, 1-1e-3, 1-1e-6} + the exact ties {eta, 1 - eta} of the inverse's comparisons (when inside
+            (0, 1)); inv(eps, F_eps(x)) = x for every finite x of X on whose half line F_eps is
             strictly increasing (orthant weight > 0; x = 0 needs both weights > 0).
  inverse_mixed (Clayton) ONE vectorised call of the inverse with first arguments of both signs and every magnitude of E
             (the series representation calls it with eps = tau (2 U - 1)) x U; F_eps(inverse) = u and the half line, per element.
@@ -120,7 +154,11 @@ of arguments of very different size is lost in rounding); histories that poke pr
 outside theta > 0, eta in [0, 1]; FrankLevyCopula (no helper in rpylib.model.utils offers it); rectangles whose upper ends are all +inf; -inf as a rectangle end
 (other than through the margin operator); margin at u = +inf; a_i >= b_i; eps = 0 in the conditional distribution;
 u in {0, 1} for the inverse; x on a half line that carries no mass (eta in {0, 1}); infinite arguments of
-x_first_derivative; conditional distribution / derivative of the independent and dependent copulas (not stated);
+x_first_derivative; argument forms the unchanged tree rejects (lists / tuples / 0-d / (1,n) arrays as the argument of a
+copula, of the conditional distribution, of the inverse or of the derivative: the signatures say np.array and the code
+reads .size / .shape) and float32 arrays (another precision, nothing stated); the index list handed to margin() modified
+AFTER the operator was built (the closure reads the caller's list at call time: latent, the library never does it);
+dimension 1 and empty arguments of the copulas; conditional distribution / derivative of the independent and dependent copulas (not stated);
 dimension > 3; d > 2 conditional distribution (the library raises NotImplementedError).
 """
 from __future__ import annotations
@@ -139,7 +177,8 @@ LEVEL = "exploration"
 RULE = (
     "complete products: copula parameters x dimension x all rectangles (a_i < b_i) of the coordinate alphabet except those "
     "with all upper ends +inf; all zero-containing argument vectors; all (eps, x) / (eps, u) pairs; all sign/magnitude "
-    "tuples for the mixed derivative; all (route, from, to) histories of the route menu x parameter menu.  A case is non-trivial when at least one oracle comparison was made on real output; "
+    "tuples for the mixed derivative; all (route, from, to) histories of the route menu x parameter menu; all (entry point, "
+    "point of its lattice, accepted argument form) triples of the sub-check args.  A case is non-trivial when at least one oracle comparison was made on real output; "
     "distinct = distinct case dict (copula, dimension, sub-check, slice of the rectangle lattice)"
 )
 ASSUMPTIONS = [
@@ -151,6 +190,8 @@ ASSUMPTIONS = [
     "Clayton arguments with theta*|log10|u|| > 300 are excluded (the power |u|^-theta leaves the range of normal doubles)",
     "objects with a history are compared with freshly built objects of the same public parameters (same code, same parameters: "
     "equal up to 1e-13) and are judged by every sub-check; the menu of histories is the stated finite list of routes",
+    "argument forms: the menu is the list of forms the unchanged tree accepts (module docstring, sub-check args); each is compared "
+    "with the usual form on the same object; forms the unchanged tree rejects are outside the alphabet",
 ]
 
 EPS = 2.0 ** -52
@@ -192,8 +233,12 @@ def _copulas(tier):
 # Histories: the same parameter values reached on a RE-USED object (public attributes re-assigned after the object was
 # built with other values and used; another object of the class built / re-parametrised / used in between; copies).
 ROUTES_CLAYTON = ["set", "use-set", "use-set-eta-first", "set-theta", "set-eta", "round-trip", "other-between",
-                  "deepcopy-set", "copy-sibling-set", "pickle"]
-ROUTES_PLAIN = ["used", "other-between", "deepcopy", "pickle"]
+                  "deepcopy-set", "copy-sibling-set", "pickle",
+                  # clones (copy.copy / copy.deepcopy / dill) x which of the two objects is re-parametrised x which is observed
+                  "copy", "copy-set", "copy-kept", "copy-original-set", "copy-of-copy-set", "deepcopy-kept", "pickle-set",
+                  "pickle-kept"]
+ROUTES_PARAM_FORMS = ["numpy-parameters", "positional-parameters"]  # no starting values: forms of the constructor arguments
+ROUTES_PLAIN = ["used", "other-between", "deepcopy", "pickle", "copy"]
 HIST_PARAMS = {"quick": [(0.3, 0.0), (0.7, 0.3), (1.0, 0.5), (3.0, 1.0)],
                "thorough": [(0.1, 0.9), (0.3, 0.0), (0.7, 0.3), (1.0, 0.5), (3.0, 1.0), (10.0, 0.3)]}
 
@@ -215,7 +260,10 @@ def _twins(tier):
         out.append({"kind": "clayton", "theta": t, "eta": e, "via": {"route": route, "from": _other_params(t, e)}})
     for t, e in ([(1.0, 0.0), (3.0, 1.0), (1.0, 1.0)] if tier == "thorough" else [(1.0, 0.0), (3.0, 1.0)]):
         out.append({"kind": "clayton", "theta": t, "eta": e, "via": {"route": "int-parameters"}})
-    plain_routes = ROUTES_PLAIN if tier == "thorough" else ["other-between", "pickle"]
+    for k, route in enumerate(ROUTES_PARAM_FORMS):
+        t, e = targets[(k + 1) % len(targets)]
+        out.append({"kind": "clayton", "theta": t, "eta": e, "via": {"route": route}})
+    plain_routes = ROUTES_PLAIN if tier == "thorough" else ["other-between", "pickle", "copy"]
     for kind in ("independent", "dependent"):
         for route in plain_routes:
             out.append({"kind": kind, "via": {"route": route}})
@@ -250,6 +298,8 @@ def cases(tier):
             out.append({"sub": "grounded", "copula": c, "dim": d})
             out.append({"sub": "margin1", "copula": c, "dim": d})
     for c in cops:
+        out.append({"sub": "args", "copula": c})
+    for c in cops:
         out.append({"sub": "volume", "copula": c, "dim": 2, "alphabet": "A8", "first": None, "margin_options": True})
     # differential histories: every (from -> to) pair of the parameter menu x every route, against a fresh object
     hp = HIST_PARAMS[tier]
@@ -262,6 +312,9 @@ def cases(tier):
     for t in (1.0, 3.0):
         for e in (0.0, 1.0):
             out.append({"sub": "history", "copula": {"kind": "clayton", "theta": t, "eta": e, "via": {"route": "int-parameters"}}})
+    for route in ROUTES_PARAM_FORMS:
+        for t, e in hp:
+            out.append({"sub": "history", "copula": {"kind": "clayton", "theta": t, "eta": e, "via": {"route": route}}})
     for kind in ("independent", "dependent"):
         for route in ROUTES_PLAIN:
             out.append({"sub": "history", "copula": {"kind": kind, "via": {"route": route}}})
@@ -382,6 +435,8 @@ def _make(cspec):
             return copy.deepcopy(c)
         if route == "pickle":
             return _roundtrip(c)
+        if route == "copy":
+            return copy.copy(c)
         raise ValueError(cspec)
 
     def mk(t, e):
@@ -392,6 +447,12 @@ def _make(cspec):
         if th != int(th) or et != int(et):
             raise ValueError(cspec)
         return mk(int(th), int(et))
+    if route == "numpy-parameters":  # parameters handed over as numpy scalars (what a calibration routine has in hand)
+        return mk(np.float64(th), np.float64(et))
+    if route == "positional-parameters":  # positional arguments of the helper
+        from rpylib.model import utils as U
+
+        return U.create_clayton_copula(th, et)
     th0, et0 = (float(x) for x in via["from"])
 
     if route == "set":  # built with other values, re-parametrised before any use
@@ -452,6 +513,43 @@ def _make(cspec):
         _use(o, True)
         _assign(o, theta=th, eta=et)
         return _roundtrip(o)
+    # clones: the clone is observed (copy-sibling-set above observes the original next to a re-parametrised clone)
+    if route == "copy":  # shallow copy of a used object, same parameters
+        o = mk(th, et)
+        _use(o, True)
+        return copy.copy(o)
+    if route in ("copy-set", "pickle-set"):  # the clone is re-parametrised (a bumped / re-calibrated copy) and observed
+        o = mk(th0, et0)
+        _use(o, True)
+        c = copy.copy(o) if route == "copy-set" else _roundtrip(o)
+        _assign(c, theta=th, eta=et)
+        _use(o, True)
+        return c
+    if route in ("copy-kept", "deepcopy-kept", "pickle-kept"):  # the clone is kept aside, the original moves on
+        o = mk(th, et)
+        _use(o, True)
+        c = {"copy-kept": copy.copy, "deepcopy-kept": copy.deepcopy, "pickle-kept": _roundtrip}[route](o)
+        _assign(o, theta=th0, eta=et0)
+        _use(o, True)
+        return c
+    if route == "copy-original-set":  # a clone is taken and used, then the original is re-parametrised and observed
+        o = mk(th0, et0)
+        _use(o, True)
+        k = copy.copy(o)
+        _use(k, True)
+        _assign(o, theta=th, eta=et)
+        _use(k, True)
+        return o
+    if route == "copy-of-copy-set":  # clone of a clone; the middle one is re-parametrised too
+        o = mk(th0, et0)
+        _use(o, True)
+        k = copy.copy(o)
+        _assign(k, theta=1.5 * th0, eta=1.0 - et0)
+        c = copy.copy(k)
+        _assign(c, theta=th, eta=et)
+        _use(k, True)
+        _use(o, True)
+        return c
     raise ValueError(cspec)
 
 
@@ -787,6 +885,11 @@ def _kappa_x(theta, w, eps, x):
     return (((1.0 + y) / y) * (dg + 4.0 / (w * g) + 2.0 * lng + 3.0) + 1.0 + abs(math.log(y))) / theta + 3.0
 
 
+def _ulat(eta):
+    """The u lattice plus the exact ties of the inverse's comparisons u >= 1 - eta, u >= eta (where the inverse is 0)."""
+    return sorted(set(ULAT) | {x for x in (float(eta), 1.0 - float(eta)) if 0.0 < x < 1.0})
+
+
 def _sub_conditional(sh, case):
     cspec = case["copula"]
     theta, eta = cspec["theta"], cspec["eta"]
@@ -821,12 +924,13 @@ def _sub_conditional(sh, case):
 
     inv = cop.inverse_conditional_distribution
     # F o inv = id on the u lattice (array call with one eps per u, as the series representation calls it)
-    us = np.array(ULAT)
+    ulat = _ulat(eta)
+    us = np.array(ulat)
     xs = np.asarray(inv(np.full(us.shape, eps), us), dtype=float)
     tol = 4.0 * _tol_u(theta) * EPS
     worst_u = 0.0
     brk = (1.0 - eta) if eps > 0 else eta
-    for u, x in zip(ULAT, xs):
+    for u, x in zip(ulat, xs):
         n += 1
         ucls = "u=break" if u == brk else ("u<break" if u < brk else "u>break")
         if math.isnan(x):
@@ -890,7 +994,7 @@ def _sub_inverse_mixed(sh, case):
     cop = _make(cspec)
     ecls = _eta_cls(cspec)
     eps_all = [s * float(e) for e in case["eps"] for s in (1.0, -1.0)]
-    pairs = [(e, u) for e in eps_all for u in ULAT]
+    pairs = [(e, u) for e in eps_all for u in _ulat(eta)]
     es = np.array([p[0] for p in pairs])
     us = np.array([p[1] for p in pairs])
     xs = np.asarray(cop.inverse_conditional_distribution(es, us), dtype=float)
@@ -1095,3 +1199,261 @@ def _sub_history(sh, case):
     sh.nontriv()
     if clayton and route == "use-set" and cspec["theta"] == 0.7 and cspec["via"]["from"] == [3.0, 1.0]:
         sh.sample({"sub": "history", "copula": cspec, "points compared with a fresh object": n, "differences": bad})
+
+
+# ----------------------------------------------------------------------------------------------------------------------
+# argument forms, argument arrays left alone, no aliasing
+# ----------------------------------------------------------------------------------------------------------------------
+
+_G2 = [-INF, -5.0, -0.2, -1e-200, -0.0, 0.0, 1e-200, 0.2, 1.0, INF]
+_G3 = [-INF, -1.0, -0.0, 0.2, 5.0, INF]
+_GX = [-5.0, -0.2, -0.0, 0.0, 0.2, 1.0]
+_GEPS = [0.2, -0.2, 1.0, -1.0, 5.0, -5.0]
+
+
+def _snap(obj):
+    """Value of an argument object, bit for bit (the sign of a zero and the dtype count)."""
+    if isinstance(obj, np.ndarray):
+        return ("ndarray", obj.dtype.str, obj.shape, obj.tobytes())
+    if isinstance(obj, (list, tuple)):
+        return (type(obj).__name__, tuple(_snap(x) for x in obj))
+    if isinstance(obj, range):
+        return ("range", obj.start, obj.stop, obj.step)
+    return (type(obj).__name__, repr(obj))
+
+
+def _integral(u):
+    return all(math.isfinite(x) and float(x) == int(x) for x in u)
+
+
+class _Args:
+    """Bookkeeping of the sub-check `args` for one copula object."""
+
+    def __init__(self, sh, cspec, cop):
+        self.sh, self.cspec, self.cop = sh, cspec, cop
+        self.kind, self.vk = _kind(cspec), _vk(cspec)
+        self.n = 0
+        self.bad = 0
+        via = cspec.get("via") or {}
+        # integer-valued arrays raised to the power -theta: rejected by numpy when theta itself is an integer object
+        # ("Integers to negative integer powers are not allowed"), on the unchanged tree too: outside the alphabet
+        self.int_arrays = not (self.kind == "clayton" and via.get("route") == "int-parameters")
+
+    def fail(self, fn, failure, what, detail):
+        self.bad += 1
+        self.sh.violation(f"C11:args:{self.kind}:{fn}:{failure}{self.vk}", f"{self.cop!r}: {what}", detail)
+
+    def guarded(self, fn, call, **named):
+        """call() with the caller's argument objects `named` compared bit for bit before / after."""
+        before = {k: _snap(v) for k, v in named.items()}
+        r = call()
+        for k, v in named.items():
+            if _snap(v) != before[k]:
+                after = np.asarray(v, dtype=float).reshape(-1)[:12].tolist()
+                self.fail(fn, f"argument-modified-by-the-call:{k}",
+                          f"{fn} changed its argument `{k}` (the caller's object is not the same bit for bit after the call; now {after})",
+                          {"argument": k, "after": _j(after)})
+        return r
+
+    def form(self, fn, name, ref, call, arg, rtol=0.0, **named):
+        """An alternative legal form of the arguments (accepted by the unchanged tree): same answer as the usual form."""
+        self.n += 1
+        try:
+            v = self.guarded(fn, call, **named)
+        except Exception as e:  # the unchanged tree accepts this form
+            self.fail(fn, f"raises-on-argument-form:{name}", f"{fn} with {name} at {arg}: {type(e).__name__}: {e}", {"argument": _j(arg)})
+            return None
+        va, ra = np.asarray(v, dtype=float), np.asarray(ref, dtype=float)
+        if va.size != ra.size:
+            self.fail(fn, f"differs-from-usual-form:{name}", f"{fn} with {name} at {arg}: {va.size} value(s), usual form {ra.size}", {"argument": _j(arg)})
+            return v
+        for x, y in zip(va.reshape(-1), ra.reshape(-1)):
+            x, y = float(x), float(y)
+            ok = (math.isnan(x) and math.isnan(y)) or x == y or abs(x - y) <= rtol * max(abs(x), abs(y))
+            if not ok:
+                self.fail(fn, f"differs-from-usual-form:{name}", f"{fn} with {name} at {arg} = {x!r}, with the usual form {y!r}",
+                          {"argument": _j(arg), "form": name, "value": x, "usual": y})
+                break
+        return v
+
+
+def _sub_args(sh, case):
+    """Every public entry point: (a) the caller's argument arrays / lists are bit for bit the same after the call, (b) a
+    second call on the same array, a work array re-used with other contents (what the margin operator does), a strided
+    view, and every other argument form the unchanged tree accepts give the answer of the usual form, (c) a returned
+    array changes neither when the caller's arguments are overwritten afterwards nor when the function is called again."""
+    from rpylib.model.levycopulamodel import margin, volume
+
+    cspec = case["copula"]
+    cop = _make(cspec)
+    clayton = cspec["kind"] == "clayton"
+    A = _Args(sh, cspec, cop)
+
+    # -- the copula itself
+    for d, letters in ((2, _G2), (3, _G3)):
+        fn = f"call:d{d}"
+        buf = np.empty(d)
+        big = np.full((d, 3), 9.0)
+        for u in itertools.product(letters, repeat=d):
+            fresh = np.array(u, dtype=float)
+            ref = A.guarded(fn, lambda: cop(fresh), us=fresh)
+            A.n += 1
+            buf[:] = u
+            A.form(fn, "re-used-work-array", ref, lambda: cop(buf), u, us=buf)
+            A.form(fn, "second-call-on-the-same-array", ref, lambda: cop(buf), u, us=buf)
+            big[:, 1] = u
+            A.form(fn, "strided-view", ref, lambda: cop(big[:, 1]), u, us=big)
+            if A.int_arrays and _integral(u):
+                iu = np.array([int(x) for x in u])
+                A.form(fn, "integer-array", ref, lambda: cop(iu), u, rtol=1e-13, us=iu)
+            elif _integral(u):
+                sh.count("form_outside_alphabet")
+    sh.cls("args:call")
+
+    # -- margin operator: forms of the index set and of the argument
+    for d, idx_sets, points in ((2, ([0], [1]), ([-5.0], [-0.2], [1.0])),
+                                (3, ([1], [2, 0], [0, 1]), None)):
+        for idx in idx_sets:
+            pts = points or ([[-5.0], [1.0]] if len(idx) == 1 else [[-5.0, 1.0], [1.0, -1.0], [-0.2, -5.0]])
+            for u in pts:
+                fn = f"margin:d{d}"
+                il, ua = list(idx), np.array(u, dtype=float)
+                m_usual = margin(cop, il, d)
+                ref = A.guarded(fn, lambda: m_usual(ua), indices=il, u=ua)
+                A.n += 1
+                A.form(fn, "second-call-of-the-same-margin", ref, lambda: m_usual(ua), (idx, u), u=ua, indices=il)
+                for iname, iobj in (("list", list(idx)), ("tuple", tuple(idx)), ("array", np.array(idx))):
+                    for uname, uobj in (("list", list(u)), ("tuple", tuple(u)), ("integer-list", [int(x) for x in u] if _integral(u) else None)):
+                        if uobj is None:
+                            continue
+                        A.form(fn, f"indices-{iname}:u-{uname}", ref, lambda: margin(cop, iobj, d)(uobj), (idx, u), rtol=1e-13,
+                               indices=iobj, u=uobj)
+    sh.cls("args:margin")
+
+    # -- volume operator: forms of the corners
+    fg = _gen_adapter(cop)
+    for a, b in (([-1.0, 0.2], [0.2, INF]), ([-5.0, -1.0], [-1.0, 5.0]), ([-1.0, 0.0, 0.2], [1.0, 5.0, INF]), ([-5.0, -1.0, 0.0], [-1.0, 5.0, 1.0])):
+        fn = f"volume:d{len(a)}"
+        ref = A.guarded(fn, lambda: volume(fg, a, b), a=a, b=b)
+        A.n += 1
+        for name, conv in (("tuples", tuple), ("arrays", lambda z: np.array(z, dtype=float))):
+            ca, cb = conv(a), conv(b)
+            A.form(fn, name, ref, lambda: volume(fg, ca, cb), (a, b), a=ca, b=cb)
+        if _integral(a) and _integral(b):
+            ia, ib = [int(x) for x in a], [int(x) for x in b]
+            A.form(fn, "integer-lists", ref, lambda: volume(fg, ia, ib), (a, b), a=ia, b=ib)
+    sh.cls("args:volume")
+
+    if clayton:
+        # -- conditional distribution
+        fn = "conditional_distribution"
+        prev = None
+        for eps in _GEPS:
+            at_zero = {}
+            for x in XLAT + [-0.0]:
+                xa = np.array([x])
+                r = A.guarded(fn, lambda: cop.conditional_distribution(eps, xa), x=xa)
+                A.n += 1
+                ref = np.array(r, dtype=float, copy=True)
+                if prev is not None and _snap(prev[0]) != prev[1]:
+                    A.fail(fn, "earlier-result-changed-by-a-later-call", f"the array returned for {prev[2]} changed when the function was called at {(eps, x)}",
+                           {"earlier": _j(prev[2]), "later": _j((eps, x))})
+                if x == 0:
+                    at_zero[math.copysign(1.0, x)] = float(ref.reshape(-1)[0])
+                forms = [("eps-numpy-float", np.float64(eps), xa), ("eps-0d-array", np.array(eps), xa)]
+                if float(eps) == int(eps):
+                    forms += [("eps-python-int", int(eps), xa), ("eps-numpy-int", np.int64(int(eps)), xa)]
+                if A.int_arrays and _integral([x]):
+                    forms.append(("x-integer-array", eps, np.array([int(x)])))
+                    if float(eps) == int(eps):
+                        forms.append(("eps-python-int:x-integer-array", int(eps), np.array([int(x)])))
+                for name, e2, x2 in forms:
+                    A.form(fn, name, ref, lambda: cop.conditional_distribution(e2, x2), (eps, x), rtol=1e-13, x=x2)
+                A.form(fn, "keywords", ref, lambda: cop.conditional_distribution(eps=eps, x=xa), (eps, x), x=xa)
+                if isinstance(r, np.ndarray):
+                    keep = _snap(r)
+                    xa[0] = 123.0  # the caller re-uses its array
+                    if _snap(r) != keep:
+                        A.fail(fn, "result-aliases-the-argument", f"the array returned at {(eps, x)} changed when the caller overwrote its argument", {"argument": _j((eps, x))})
+                    prev = (r, _snap(r), (eps, x))
+            A.n += 1
+            if at_zero.get(1.0) != at_zero.get(-1.0):
+                A.fail(fn, "minus-zero-differs-from-zero", f"F_eps(-0.0) = {at_zero.get(-1.0)!r}, F_eps(0.0) = {at_zero.get(1.0)!r} for eps = {eps}", {"eps": eps})
+        sh.cls("args:conditional")
+
+        # -- inverse: one vectorised call against element-wise calls, scalar first argument, integer first arguments, views
+        fn = "inverse_conditional_distribution"
+        inv = cop.inverse_conditional_distribution
+        eta = float(cspec["eta"])
+        ulat = _ulat(eta)
+        es = np.array([e for e in _GEPS for _ in ulat])
+        us = np.array([u for _ in _GEPS for u in ulat])
+        r = A.guarded(fn, lambda: inv(es, us), eps=es, x=us)
+        A.n += 1
+        ref = np.array(r, dtype=float, copy=True)
+        keep = _snap(r) if isinstance(r, np.ndarray) else None
+        later = inv(np.full(us.shape, 0.5), us[::-1].copy())  # the very next call, same shapes
+        if keep is not None and _snap(r) != keep:
+            A.fail(fn, "earlier-result-changed-by-a-later-call", "the array returned by one call changed when the function was called again", {})
+        del later
+        if ref.shape != us.shape:
+            A.fail(fn, "wrong-shape", f"inverse of arrays of shape {us.shape} has shape {ref.shape}", {})
+        else:
+            for k in range(len(us)):
+                e1, u1 = np.array([es[k]]), np.array([us[k]])
+                A.form(fn, "element-wise-call", ref[k: k + 1], lambda: inv(e1, u1), (float(es[k]), float(us[k])), rtol=1e-9, eps=e1, x=u1)
+            ua = np.array(ulat)
+            for i, eps in enumerate(_GEPS):
+                sl = ref[i * len(ulat): (i + 1) * len(ulat)]
+                forms = [("eps-python-float", eps), ("eps-numpy-float", np.float64(eps)), ("eps-0d-array", np.array(eps)), ("eps-one-element-array", np.array([eps]))]
+                if float(eps) == int(eps):
+                    forms += [("eps-python-int", int(eps)), ("eps-numpy-int", np.int64(int(eps))), ("eps-integer-array", np.full(len(ulat), int(eps)))]
+                for name, e2 in forms:
+                    A.form(fn, name, sl, lambda: inv(e2, ua), (eps, "U"), rtol=1e-9, eps=e2, x=ua)
+            A.form(fn, "keywords", ref, lambda: inv(eps=es, x=us), ("E", "U"), eps=es, x=us)
+            e_big, u_big = np.full((len(us), 2), 7.0), np.full((len(us), 2), 0.4)
+            e_big[:, 0], u_big[:, 0] = es, us
+            A.form(fn, "strided-views", ref, lambda: inv(e_big[:, 0], u_big[:, 0]), ("E", "U"), rtol=1e-9, eps=e_big, x=u_big)
+            A.form(fn, "reversed-order", ref[::-1], lambda: inv(es[::-1], us[::-1]), ("E", "U"), rtol=1e-9, eps=es, x=us)
+            r = inv(es, us)
+            keep = _snap(r) if isinstance(r, np.ndarray) else None
+            es[:] = 3.0  # the caller re-uses its arrays
+            us[:] = 0.5
+            if keep is not None and _snap(r) != keep:
+                A.fail(fn, "result-aliases-the-arguments", "the returned array changed when the caller overwrote its arguments", {})
+        # sizes: no element
+        A.n += 1
+        try:
+            r0 = np.asarray(inv(np.array([]), np.array([])))
+            if r0.shape != (0,):
+                A.fail(fn, "empty-arrays-wrong-shape", f"inverse of two empty arrays has shape {r0.shape}", {})
+        except Exception as e:
+            A.fail(fn, "raises-on-argument-form:empty-arrays", f"inverse of two empty arrays: {type(e).__name__}: {e}", {})
+        sh.cls("args:inverse")
+
+        # -- stated derivative
+        for d in (2, 3):
+            fn = f"x_first_derivative:d{d}"
+            buf = np.empty(d)
+            big = np.full((d, 2), 9.0)
+            for u in itertools.product(_GX, repeat=d):
+                fresh = np.array(u, dtype=float)
+                ref = A.guarded(fn, lambda: cop.x_first_derivative(fresh), u=fresh)
+                A.n += 1
+                buf[:] = u
+                A.form(fn, "re-used-work-array", ref, lambda: cop.x_first_derivative(buf), u, u=buf)
+                A.form(fn, "keyword", ref, lambda: cop.x_first_derivative(u=buf), u, u=buf)
+                big[:, 0] = u
+                A.form(fn, "strided-view", ref, lambda: cop.x_first_derivative(big[:, 0]), u, u=big)
+                if A.int_arrays and _integral(u):
+                    iu = np.array([int(x) for x in u])
+                    A.form(fn, "integer-array", ref, lambda: cop.x_first_derivative(iu), u, rtol=1e-13, u=iu)
+        sh.cls("args:xderiv")
+
+    sh.count("evaluations", A.n)
+    sh.count("argument_form_points", A.n)
+    sh.cls(f"history:{_via_cls(cspec)}")
+    sh.outcome(("args", _j(cspec), A.n, A.bad))
+    sh.nontriv()
+    if clayton and cspec["theta"] == 0.7 and cspec["eta"] == 0.3 and "via" not in cspec:
+        sh.sample({"sub": "args", "copula": cspec, "calls compared (forms, re-used arrays, aliasing)": A.n, "differences": A.bad})
